@@ -393,10 +393,7 @@ func ruleC10LockPairing(c *Ctx) {
 		n++
 		key := c.P.funcKey(f)
 		c.Fn(key)
-		if deferredUnlock {
-			c.Pass("c10.lock-pairing", key, c.P.Pos(f.Pos()), "unlock deferred")
-			continue
-		}
+		_ = deferredUnlock
 		paths, err := WalkFunc(f, WalkCfg{MaxVisits: 2, MaxPaths: 4000})
 		if err != nil {
 			c.Unknown("c10.lock-pairing", key, c.P.Pos(f.Pos()), err.Error())
@@ -404,28 +401,33 @@ func ruleC10LockPairing(c *Ctx) {
 		}
 		ok, why := true, ""
 		for _, p := range paths {
-			held := 0
+			held, deferred := 0, 0
 			for _, e := range p.Effects {
-				if e.Kind != "call" {
-					continue
-				}
-				switch {
-				case strings.HasSuffix(e.Callee, "Mutex).Lock") || strings.HasSuffix(e.Callee, "Mutex).RLock"):
-					held++
-				case strings.HasSuffix(e.Callee, "Mutex).Unlock") || strings.HasSuffix(e.Callee, "Mutex).RUnlock"):
-					held--
-				default:
-					if held > 0 && !strings.HasPrefix(e.Callee, "builtin:") && !isPureCall(e.Callee) {
-						if call, isCall := e.Instr.(*ssa.Call); isCall {
-							if cal := call.Common().StaticCallee(); cal == nil || c.P.InModule(cal) {
-								ok, why = false, "calls "+e.Callee+" while the mutex is held without a deferred unlock: a panic there leaves the mutex locked for ever"
+				switch e.Kind {
+				case "defer":
+					if strings.HasSuffix(e.Callee, "Mutex).Unlock") || strings.HasSuffix(e.Callee, "Mutex).RUnlock") {
+						deferred++
+					}
+				case "call":
+					switch {
+					case strings.HasSuffix(e.Callee, "Mutex).Lock") || strings.HasSuffix(e.Callee, "Mutex).RLock"):
+						held++
+					case strings.HasSuffix(e.Callee, "Mutex).Unlock") || strings.HasSuffix(e.Callee, "Mutex).RUnlock"):
+						held--
+					default:
+						// a call that can panic while the lock is held and no unlock has been deferred yet on this path
+						if held > deferred && !strings.HasPrefix(e.Callee, "builtin:") && !isPureCall(e.Callee) {
+							if call, isCall := e.Instr.(*ssa.Call); isCall {
+								if cal := call.Common().StaticCallee(); cal == nil || c.P.InModule(cal) {
+									ok, why = false, "calls "+e.Callee+" while the mutex is held and no unlock is deferred yet: a panic there leaves the mutex locked for ever"
+								}
 							}
 						}
 					}
 				}
 			}
-			if (p.Exit == "return" || p.Exit == "panic") && held != 0 {
-				ok, why = false, fmt.Sprintf("a path ending at %s leaves the mutex held (%d)", c.P.Pos(p.ExitInstr.Pos()), held)
+			if (p.Exit == "return" || p.Exit == "panic") && held-deferred != 0 {
+				ok, why = false, fmt.Sprintf("a path ending at %s leaves the mutex %s (locks %d, deferred unlocks %d)", c.P.Pos(p.ExitInstr.Pos()), map[bool]string{true: "held", false: "unlocked twice"}[held-deferred > 0], held, deferred)
 			}
 		}
 		c.Check(ok, "c10.lock-pairing", key, c.P.Pos(f.Pos()), "lock/unlock balanced on every path, nothing panicking in between", why)
